@@ -1479,3 +1479,128 @@ def beam_length_rule(ctx, rid="R10.18"):
             scen.append(scenario(kind, "SEG2", d, L))
     scen.append(scenario("EB", "SEG3", (Q(1), Q(2), Q(2)), 3))
     run_scenarios(ctx, r, scen)
+
+
+# ---------------------------------------------------------------------------------------------------------------------
+# beams end to end: C01 (exact cubic), C04 (connections by multipliers), C09 (line loads), C10 (orientation), C16 (results)
+def beam_rule(ctx, rid="R1.E3"):
+    repo = ctx.repo
+    r = ctx.rule(rid, "beam structures end to end (section mesh, Line, Models.Beam.Isotropic with its section integrals, Mesh of segments tagged by member, Simulations.Beam, conditions, Solve, Result), Euler-Bernoulli members of 2 elements in several orientations (along x, 3-4-5 in the plane, 1-2-2 in space): an end force gives the exact tip deflection P L^3 / 3EI, rotation P L^2 / 2EI and axial stretch F L / EA in the member frame; a uniform line load gives q L^4 / 8EI; shear force, bending moment (element means), normal force and the reactions are those of statics; two members joined by a fixed connection (Lagrange multipliers) behave as one", min_instances=5)
+    anchor = repo.lookup_method(repo.cls("EasyFEA.Simulations._beam.Beam"), "Construct_local_matrix_system")
+    W0 = World(repo)
+    PT = "EasyFEA.Geoms._utils.Point"
+
+    def member(W, dim, d, n=2, elem="SEG2", split=False, yAxis=None):
+        """a cantilever of direction d (|d| rational), n elements; split: two members joined at the middle node"""
+        sec_md = build_mesh_data(W.lib, "QUAD4", grid_cells("QUAD", 2, 2, lx=Q(1, 2), ly=1))
+        section = W.mesh(sec_md)
+        from ..e2e import MeshData
+
+        cells = [[tuple(Q(k) * c / n for c in d), tuple(Q(k + 1) * c / n for c in d)] for k in range(n)]
+        ends = [(Q(0), Q(0), Q(0)), tuple(Q(c) for c in d)]
+        mid = tuple(Q(c) / 2 for c in d)
+        if split:
+            # two members, each with its OWN node at the joint (coincident nodes 1 and 2), as Mesh_Beams meshes two lines
+            md = MeshData()
+            md.dim = 1
+            md.coords = [ends[0], mid, mid, ends[1]]
+            md.index = {ends[0]: 0, ends[1]: 3}
+            md.groups = {"SEG2": [[0, 1], [2, 3]], "POINT": [[0], [1], [2], [3]]}
+        else:
+            md = build_mesh_data(W.lib, elem, cells)
+        mesh = W.mesh(md)
+        pieces = [(ends[0], mid), (mid, ends[1])] if split else [(ends[0], ends[1])]
+        beams = []
+        for a, b in pieces:
+            line = W.new("EasyFEA.Geoms._line.Line", W.new(PT, *a), W.new(PT, *b), Q(1))
+            kw = {} if yAxis is None else {"yAxis": XArray((3,), list(yAxis))}
+            beam = W.new("EasyFEA.Models.Beam._beam.Isotropic", dim, line, section, Q(10), Q(1, 4), **kw)
+            beams.append(beam)
+            # the nodes of the member: those between its end points (as Mesh_Beams tags them through Nodes_Line)
+            if split:
+                nodes = [0, 1] if (a, b) == pieces[0] else [2, 3]
+            else:
+                nodes = list(range(md.Nn))
+            for g in W.call(mesh, "Get_list_groupElem"):
+                W.call(g, "Set_Tag", iarr(nodes), W.get(beam, "name"))
+        structure = W.new("EasyFEA.Models.Beam._beam.BeamStructure", beams)
+        simu = W.new("EasyFEA.Simulations._beam.Beam", mesh, structure)
+        return md, mesh, simu, md.index[ends[0]], md.index[ends[1]], ([1, 2] if split else None)
+
+    E, A = Q(10), Q(1, 2)
+    Iz, Iy = Q(1, 24), Q(1, 96)  # b = 1/2 along the section's x, h = 1 along its y
+
+    def cantilever2d(d, L, load, split=False):
+        def thunk():
+            W = World(repo, lib=W0.lib)
+            md, mesh, simu, n0, n1, nm = member(W, 2, d, split=split)
+            ex = (Q(d[0]) / L, Q(d[1]) / L)
+            ey = (-ex[1], ex[0])
+            P, F, q = Poly.var("P"), Poly.var("F"), Poly.var("q")
+            W.call(simu, "add_dirichlet", iarr([n0]), [Q(0), Q(0), Q(0)], ["x", "y", "rz"])
+            if split:
+                W.call(simu, "add_connection_fixed", iarr(nm))
+            if load == "end":
+                W.call(simu, "add_neumann", iarr([n1]), [P * ey[0] + F * ex[0], P * ey[1] + F * ex[1]], ["x", "y"])
+                w_tip, th_tip, u_tip = P * L**3 / (3 * E * Iz), P * L**2 / (2 * E * Iz), F * L / (E * A)
+            else:
+                # a transverse intensity q and a different axial intensity a, in one call
+                a_ = Poly.var("a")
+                W.call(simu, "add_lineLoad", iarr(range(md.Nn)), [q * ey[0] + a_ * ex[0], q * ey[1] + a_ * ex[1]], ["x", "y"])
+                w_tip, th_tip, u_tip = q * L**4 / (8 * E * Iz), q * L**3 / (6 * E * Iz), a_ * L**2 / (2 * E * A)
+            u = polys(W.call(simu, "Solve"))
+            tag = f"2-D cantilever along {tuple(str(c) for c in d[:2])}{', two members joined by a fixed connection' if split else ''}, {'end force' if load == 'end' else 'uniform line load'}"
+            ux, uy, rz = u[n1 * 3], u[n1 * 3 + 1], u[n1 * 3 + 2]
+            w_got = ux * ey[0] + uy * ey[1]
+            a_got = ux * ex[0] + uy * ex[1]
+            if not same(w_got, w_tip):
+                return f"{tag}: tip deflection {w_got}, the exact value is {Poly.of(w_tip)}"
+            if not same(rz, th_tip):
+                return f"{tag}: tip rotation {rz}, the exact value is {Poly.of(th_tip)}"
+            if not same(a_got, u_tip):
+                return f"{tag}: axial tip displacement {a_got}, the exact value is {Poly.of(u_tip)}"
+            if load == "end" and not split:
+                Ty = polys(W.call(simu, "Result", "Ty", False))
+                N = polys(W.call(simu, "Result", "N", False))
+                Mz = polys(W.call(simu, "Result", "Mz", False))
+                for k in range(len(Ty)):
+                    if not (same(Ty[k], P) or same(Ty[k], -P)):
+                        return f"{tag}: shear force of element {k} is {Ty[k]}, statics gives +/- P"
+                    if not (same(N[k], F) or same(N[k], -F)):
+                        return f"{tag}: normal force of element {k} is {N[k]}, statics gives +/- F"
+                want = sorted([str(P * L * Q(3, 4)), str(P * L * Q(1, 4))])
+                if sorted(str(m) for m in Mz) != want and sorted(str(-m) for m in Mz) != want:
+                    return f"{tag}: mean bending moments of the two elements are {[str(m) for m in Mz]}, statics gives +/- {want}"
+                cz = polys(W.call(simu, "Result", "cz"))
+                if not (same(cz[n0], -P * L) or same(cz[n0], P * L)):
+                    return f"{tag}: reaction moment at the clamp {cz[n0]}, statics gives +/- P L = {P * L}"
+            return None
+
+        return (f"beam 2-D {d[:2]} {load}{' split' if split else ''}", anchor, thunk)
+
+    def cantilever3d(d, L, yAxis):
+        def thunk():
+            W = World(repo, lib=W0.lib)
+            md, mesh, simu, n0, n1, nm = member(W, 3, d, yAxis=yAxis)
+            ex = tuple(Q(c) / L for c in d)
+            ey = tuple(Q(c) for c in yAxis)
+            ez = (ex[1] * ey[2] - ex[2] * ey[1], ex[2] * ey[0] - ex[0] * ey[2], ex[0] * ey[1] - ex[1] * ey[0])
+            Py, Pz, F = Poly.var("Py"), Poly.var("Pz"), Poly.var("F")
+            W.call(simu, "add_dirichlet", iarr([n0]), [Q(0)] * 6, ["x", "y", "z", "rx", "ry", "rz"])
+            W.call(simu, "add_neumann", iarr([n1]), [Py * ey[i] + Pz * ez[i] + F * ex[i] for i in range(3)], ["x", "y", "z"])
+            u = polys(W.call(simu, "Solve"))
+            t = [u[n1 * 6 + i] for i in range(3)]
+            proj = lambda e: sum((t[i] * e[i] for i in range(3)), Poly.const(0))
+            tag = f"3-D cantilever along {tuple(str(c) for c in d)}, vertical axis {tuple(str(c) for c in yAxis)}"
+            for nm_, got, want in (("deflection along the member's y axis", proj(ey), Py * L**3 / (3 * E * Iz)), ("deflection along the member's z axis", proj(ez), Pz * L**3 / (3 * E * Iy)), ("axial displacement", proj(ex), F * L / (E * A))):
+                if not same(got, want):
+                    return f"{tag}: tip {nm_} = {got}, the exact value is {Poly.of(want)}"
+            return None
+
+        return (f"beam 3-D {d}", anchor, thunk)
+
+    scen = [cantilever2d((Q(5), Q(0), Q(0)), Q(5), "end"), cantilever2d((Q(3), Q(4), Q(0)), Q(5), "end"), cantilever2d((Q(-4), Q(3), Q(0)), Q(5), "end"),
+            cantilever2d((Q(3), Q(4), Q(0)), Q(5), "line"), cantilever2d((Q(5), Q(0), Q(0)), Q(5), "line"),
+            cantilever2d((Q(3), Q(4), Q(0)), Q(5), "end", split=True),
+            cantilever3d((Q(3), Q(0), Q(0)), Q(3), (Q(0), Q(1), Q(0))), cantilever3d((Q(1), Q(2), Q(2)), Q(3), (Q(2, 3), Q(-2, 3), Q(1, 3)))]
+    run_scenarios(ctx, r, scen)
